@@ -264,7 +264,7 @@ func randTyRef(r *rand.Rand, ts []TypeDecl, allowNil bool) TyRef {
 
 var forms = []string{
 	"call-var", "call-ptr", "call-addr", "call-tmp",
-	"mval-var", "mval-ptr", "mval-var-bump", "mval-ptr-bump",
+	"mval-var", "mval-ptr", "mval-var-bump", "mval-ptr-bump", "mval-iface", "mval-iface-bump",
 	"mexpr-val", "mexpr-ptr",
 	"iface-val", "iface-addr", "iface-val-bump", "iface-addr-bump",
 	"assert-typed", "assert-empty", "assert-anon",
@@ -329,6 +329,23 @@ func genScenario(r *rand.Rand, ts []TypeDecl, form string) Prog {
 			add(Stmt{Op: "bump", Y: "v"})
 		}
 		add(Stmt{Op: "callf", X: "g"})
+	case "mval-iface", "mval-iface-bump":
+		// f := i.M on a script interface value holding v or &v; F05-18 in its script form
+		src := ifaceSrc(r)
+		it := pickIface(r, ts, t, src.Kind != "var")
+		ms := ifaceNames(ts, it)
+		if src.Kind == "ptrvar" {
+			add(Stmt{Op: "ptr", X: "p", Y: "v"})
+		}
+		add(Stmt{Op: "iface", X: "i", T: it, R: src})
+		add(Stmt{Op: "mval", X: "g", R: &Recv{Kind: "ifc", Name: "i"}, M: ms[r.Intn(len(ms))].Name})
+		if form == "mval-iface-bump" {
+			add(Stmt{Op: "bump", Y: "v"})
+		}
+		add(Stmt{Op: "callf", X: "g"})
+		if r.Intn(3) == 0 {
+			add(Stmt{Op: "callf", X: "g"})
+		}
 	case "mexpr-val":
 		add(Stmt{Op: "mexpr", T: t, M: m, Y: "v"})
 	case "mexpr-ptr":
